@@ -25,6 +25,13 @@ def verify_one(arg):
         funcs, mod = load_contract_module(os.path.join(ROOT, path))
         repo = Repo(repo_root)
         V = Verifier(repo, S.REG, funcs)
+        if key.startswith("@lemmas:"):
+            fr = V.verify_lemmas(key.split(":", 1)[1], path)
+            d = fr.to_json()
+            d.update({"contract_file": path, "key": key, "is_init": False, "raises_allowed": None, "extracted": {},
+                      "aux_labels": [], "samples": [o.sample_smt for o in fr.obs.values() if o.sample_smt][:2], "escaped": {},
+                      "is_lemma": True})
+            return d
         c = S.REG.contracts[key]
         fr = V.verify(c)
         d = fr.to_json()
@@ -47,7 +54,10 @@ def list_contracts(path):
     from pyvc.verify import load_contract_module
     S.REG.clear()
     load_contract_module(os.path.join(ROOT, path))
-    return [(k, S.REG.contracts[k].prop) for k in S.REG.order]
+    out = [(k, S.REG.contracts[k].prop) for k in S.REG.order]
+    for p_ in sorted({l["prop"] for l in S.REG.lemmas}):
+        out.append(("@lemmas:" + p_, p_))
+    return out
 
 
 def write_replay(pid, fr, ob, inst):
@@ -208,6 +218,10 @@ def main(argv=None):
                 pass
             if not unmatched:
                 n_dis += 0
+                continue
+            if ob["kind"] == "lemma":
+                errors.append(f"{ob['name']}: a lemma over the specification functions does not hold (contract error, not a code defect): "
+                              f"{json.dumps(unmatched[0]['model'])[:300]}")
                 continue
             if aux:
                 undecided.append(f"{ob['name']}: auxiliary obligation fails (proof needs maintenance) @ {unmatched[0]['path'][:200]}")
